@@ -126,8 +126,39 @@ def showParse (p : Parser Bytes) (b : Bytes) : String :=
   | none => "err"
   | some a => s!"ok re={toHex (p.bytes a)}"
 
+/-- `rtx <hex> <authhex>`: parse, then `Sign` the parsed transaction data again with another auth.
+The accepted value is unchanged (values are immutable in the model); the re-signed transaction is
+the encoding of the same body with the new auth. -/
+def showRTx (b a : Bytes) : String :=
+  match decodeTx pa pu b, pu.parse a with
+  | some t, some a' => s!"ok cur={toHex (encodeTx pa pu t)} rs={toHex (encodeTx pa pu { t with auth := a' })}"
+  | _, _ => "err"
+
+/-- `rblock` / `rbatch <hex> <authhex>`: parse, re-sign every contained transaction, then look at
+the enclosing value again -/
+def showRBlock (b a : Bytes) : String :=
+  match decodeBlock pa pu b, pu.parse a with
+  | some k, some a' =>
+    s!"ok cur={toHex (encodeBlock pa pu k)} rs={toHex ((k.txs.map fun t => encodeTx pa pu { t with auth := a' }).flatten)}"
+  | _, _ => "err"
+
+def showRBatch (b a : Bytes) : String :=
+  match decodeBatch pa pu b, pu.parse a with
+  | some txs, some a' =>
+    s!"ok cur={toHex (encodeBatch pa pu txs)} rs={toHex ((txs.map fun t => encodeTx pa pu { t with auth := a' }).flatten)}"
+  | _, _ => "err"
+
 def step (_ : Unit) (ws : List String) : Unit × String :=
   match ws with
+  | [op, h, ah] =>
+    match hexOf h, hexOf ah with
+    | some b, some a =>
+      match op with
+      | "rtx" => ((), showRTx b a)
+      | "rblock" => ((), showRBlock b a)
+      | "rbatch" => ((), showRBatch b a)
+      | _ => ((), "bad-op")
+    | _, _ => ((), "bad-op")
   | [op, h] =>
     match hexOf h with
     | none => ((), "bad-op")
